@@ -148,6 +148,14 @@ class EnumRef:
         self.mod, self.qualname, self.members = mod, qualname, members
 
 
+class GuardedSeq:
+    """the elements a generator expression over a short concrete sequence produces when its filter is symbolic: [(condition, value), ...] in order
+    (element i is present iff condition i holds).  `next(g, default)` is the first present element; anything else sees the term."""
+
+    def __init__(self, entries):
+        self.entries = list(entries)
+
+
 class GenCall:
     """a call of a generator function (its body contains `yield`): nothing runs until it is iterated; the interpreter then runs the body and
     executes the consumer's loop body at every `yield` (generator fusion)"""
@@ -198,6 +206,8 @@ def to_term(v: Any) -> T.Term:
         return ("frame", v.ctx())
     if isinstance(v, Each):
         return ("each", to_term(v.value))
+    if isinstance(v, GuardedSeq):
+        return ("gseq", tuple((c, to_term(x)) for c, x in v.entries))
     if isinstance(v, GenCall):
         return ("gencall", v.ref.qualname) + tuple(to_term(x) for x in v.pos) + tuple(("kw", k, to_term(x)) for k, x in sorted(v.kw.items()))
     if isinstance(v, FuncRef):
